@@ -882,6 +882,7 @@ pub fn pool_items() -> Vec<XS> {
         XS::Bin(BOp::Mul, b(XS::Bin(BOp::Sub, b(XS::Col("a")), b(XS::Val(iv(141))))), b(XS::Val(iv(2)))),
         XS::Val(V::Str("it's".into())),
         XS::Func(FuncK::Greatest, vec![XS::Col("a"), XS::Col("b"), XS::Val(iv(151))]),
+        XS::Func(FuncK::Least, vec![XS::Col("a"), XS::Col("b"), XS::Val(iv(191))]),
         XS::CustReorder(iv(161), iv(162)),
         XS::Func(FuncK::CharLength, vec![XS::Col("s")]),
         XS::Constant(iv(171)),
